@@ -232,8 +232,9 @@ def minimise(case, bucket):
         return any(b == bucket for b, d in check_case(c))
 
     case = json.loads(json.dumps(case))
-    # 1. shorten the step list (keep the last step = target)
-    if len(case['steps']) > 1:
+    # 1. shorten the step list (keep the last step = target); a two-step history is
+    # already minimal (one step cannot differ from itself compiled alone)
+    if len(case['steps']) > (2 if case.get('kind') == 'history' else 1):
         tgt = case['steps'][-1]
         short = dict(case)
         short['steps'] = [tgt]
@@ -245,7 +246,7 @@ def minimise(case, bucket):
             seen = set()
             for st_ in reversed(case['steps'][:-1]):
                 k = json.dumps(st_[:2] if st_[0] == 'parse' else st_)
-                if k in seen or len(seen) >= 2 * MIN_TESTS[0]:
+                if k in seen or len(seen) >= MIN_TESTS[0]:
                     continue
                 seen.add(k)
                 if fails(dict(case, steps=[st_, tgt])):
